@@ -630,7 +630,32 @@ fn main() {
         let nkeys = rng.range(2, 5);
         let len = rng.range(3, 30) as usize;
         let legal = rng.below(5) != 0;
-        let notes: Vec<Note> = if legal { gen_legal(&mut rng, nkeys, len, true) } else { gen_any(&mut rng, nkeys, len) };
+        let structured = legal && rng.below(3) == 0;
+        let notes: Vec<Note> = if structured {
+            // fill the map while linked, reshape it before sync, then sync and observe
+            let k = rng.range(2, 6);
+            let mut ns = vec![Note::Linked];
+            for key in 0..k {
+                ns.push(Note::Event(Msg::Update(key as i32 - 1, rng.below(50) as i32)));
+            }
+            for _ in 0..rng.range(1, 3) {
+                ns.push(Note::Event(match rng.below(6) {
+                    0 => Msg::Clear,
+                    1..=2 => Msg::Take(rng.below(k + 2)),
+                    3..=4 => Msg::Drop(rng.below(k + 2)),
+                    _ => Msg::Remove(rng.below(k) as i32 - 1),
+                }));
+            }
+            ns.push(Note::Synced);
+            for _ in 0..rng.range(1, 5) {
+                ns.push(Note::Event(gen_msg(&mut rng, k)));
+            }
+            ns
+        } else if legal {
+            gen_legal(&mut rng, nkeys, len, true)
+        } else {
+            gen_any(&mut rng, nkeys, len)
+        };
         // keys must be >= 0 for the N-valued model
         let notes: Vec<Note> = notes
             .into_iter()
